@@ -437,6 +437,11 @@ def check_link_taken_into_service(ctx):
     sc = sel[0].ast.value
     ok = bool(sc.args) and isinstance(sc.args[0], (ast.List, ast.Tuple)) and any(norm(e) in ("self._socket", "self._sock") for e in sc.args[0].elts)
     ctx.ob("C09.P4", q, ok, "select watches the connection's socket for readability" if ok else f"`{norm(sc)}` does not watch the socket for readability", key="select-reads", where=f.where)
+    # the stop flag of the loop is only looked at between two selects: the select must come back without traffic
+    tmo = sc.args[3] if len(sc.args) > 3 else next((k.value for k in sc.keywords if k.arg == "timeout"), None)
+    ok = tmo is not None and not (isinstance(tmo, ast.Constant) and tmo.value is None)
+    ctx.ob("C09.P4", q, ok, "the receive select has a timeout: a silent peer does not keep the loop from seeing the stop request" if ok else
+           f"`{norm(sc)[:80]}` has no timeout: with a silent peer the reader never looks at its stop flag again, disconnect() / disable() wait for ever", key="select-timeout", where=f.where)
     known, size = rules.literal(f.node, rc.args[0]) if rc.args else (False, None)
     ok = known and isinstance(size, int) and not isinstance(size, bool) and size >= 1
     ctx.ob("C09.P4", q, ok, f"recv asks for {size} bytes at a time" if ok else
@@ -888,3 +893,15 @@ def run(ctx):
     check_socket_lifecycle(ctx)
     check_definite_assignment(ctx)
     check_dispatcher(ctx, "C09.W3", wakeups=True, consumers=False, threads=("receiver",))
+    # a reader blocked in the byte queue is released as soon as the bytes it asked for are there (`>=`, not `>`): otherwise a
+    # complete last frame keeps the receive thread in the framing loop and the close sequence behind it (byte-queue group)
+    from .c04 import check_byte_queue
+
+    check_byte_queue(ctx, "C09.W1")
+    # the linktest timer armed on entering CONNECTED is cancelled on leaving it, whichever sub-state the link was lost in: a
+    # timer that survives the link queues a Linktest.req for a connection that is gone and parks a thread in send_message,
+    # and the stale block is the first thing written on the next connection (wiring rules of C05.P5)
+    from .. import report
+    from .c05 import check_wiring
+
+    report.share(ctx, "C09.W1", check_wiring)
